@@ -34,6 +34,8 @@ type c20Case struct {
 	NVotes   int      `json:"n_votes"`   // NV: number of votes
 	VoteProof []bool  `json:"vote_proof"` // NV: which votes carry a proof
 	Seed     uint64   `json:"seed"`
+	SigLen   int      `json:"sig_len"`   // length of every signature (-1 = natural)
+	ShareLen int      `json:"share_len"` // length of every random seed share (-1 = natural)
 }
 
 type c20env struct {
@@ -45,6 +47,7 @@ type c20env struct {
 
 func newC20env(c c20Case) *c20env {
 	e := &c20env{reg: fakes.NewRegistry(), fac: map[string]*messagesfactory.MessageFactory{}, km: map[string]*fakes.KeyManager{}, c: c}
+	e.reg.SigLen, e.reg.ShareLen = c.SigLen, c.ShareLen
 	for _, id := range c.IDs {
 		e.reg.Add(id)
 		km := &fakes.KeyManager{Reg: e.reg, Me: id}
@@ -307,6 +310,10 @@ func TestC20(t *testing.T) {
 	rapid.Check(t, func(t *rapid.T) {
 		c := c20Case{Kind: rapid.SampledFrom([]string{"PP", "P", "C", "VC", "VC", "NV", "NV", "PROOF"}).Draw(t, "kind"), Inst: u64.Draw(t, "inst"), H: u64.Draw(t, "h"), V: u64.Draw(t, "v"),
 			Block: rapid.Bool().Draw(t, "block"), Seed: u64.Draw(t, "seed")}
+		c.SigLen, c.ShareLen = -1, -1
+		if rapid.Bool().Draw(t, "siglens") {
+			c.SigLen, c.ShareLen = blen.Draw(t, "siglen"), blen.Draw(t, "sharelen")
+		}
 		c.Hash = rapid.SliceOfN(rapid.Byte(), blen.Draw(t, "hlen"), -1).Draw(t, "hash")
 		if len(c.Hash) > 256 {
 			c.Hash = c.Hash[:256]
